@@ -28,9 +28,9 @@ CLAIMED = {
        "composition) evaluated on generated ASTs. Proved: Lemma B steps 1-4 (c02_exact_on_single_select) - for INSERT (with/without column list) / CTAS / "
        "VIEW over one SELECT from any number of distinct base tables, any number of column / star items, any trivia, inside the executable guards "
        "stmt_ok and colshape, the model's end-to-end column pairs (extractors + assembly + path enumeration) equal the specification; the unguarded "
-       "statement is refuted by 18 counterexample classes (8 are defects of the implementation, 3 of them new); refutation witnesses of the recorded classes.",
+       "statement is refuted by 18 counterexample classes (8 are defects of the implementation, 3 of them new); refutation witnesses of the recorded classes. Step 5 (partial, this round): WHERE c IN (sub-query) (c02_exact_on_select_where_in_partial, Tree/LemmaB5a.v) and one derived table (c02_exact_on_one_derived_table_partial, Tree/LemmaB5c.v, with Part P generalised to ranked flow sets: pairs = ends of maximal chains, dead ends contribute nothing); the unguarded Lemma B statement is additionally refuted by a rendering artefact (equal raw text of two different sub-queries under empty trivia) and repaired by the guard sq_raw_distinct.",
   ref="DESIGN.md section 6 C02, section 12", note=TB + "M = S at column level is proved for single-SELECT statements over base tables only; derived tables, WITH, UNION, WHERE-IN and expressions "
-       "are checked by correspondence; guarded generator excludes recorded classes K-C02-1..11 (replayed separately).",
+       "are checked by correspondence; guarded generator excludes recorded classes K-C02-1..11 (replayed separately). Steps 5a/5c are proved under their own executable syntactic guards (wherein1_shape, one_derived_shape), whose derivation from colshape is not yet proved; several relations next to a derived table, nesting, UNION and WITH at column level remain correspondence-only.",
   tech="Coq proof (Lemma B steps 1-4: model pairs = spec_flows) + Coq model evaluated on the parser's trees + executable Coq specification on generated ASTs"),
  "C03": dict(
   text="Theorems about a Gallina model of SQLLineageHolder._build_digraph and the role accessors at dataset level: for scripts without DROP/RENAME "
@@ -48,7 +48,7 @@ CLAIMED = {
        "non-empty relational composition of the per-statement dataflows - no acyclicity assumption; also: path enumeration sound and complete, session view "
        "after each statement. The whole pipeline (statement loop with session metadata, "
        "assembly, path enumeration) of the model Tree/Script.v runs inside Coq on the implementation's parse trees for multi-statement chains with "
-       "and without metadata; relational composition of the per-statement dataflows and the created-earlier scenarios are evaluated on the implementation.",
+       "and without metadata; relational composition of the per-statement dataflows and the created-earlier scenarios are evaluated on the implementation. End to end on the tree model (c04_script_exact_on_core, Tree/ScriptExact.v, 1240 lines = Lemma B composed with the composition theorem): for every script - any number of statements of the Lemma-B fragment with resolved column references, any order, cycles allowed, any trivia, no metadata - extractors + statement loop + assembly + path enumeration report exactly the pairs (a, b) with b reachable from a through >= 1 specified statement flows, a written by none and b read by none; corollaries: the two-statement chain, the dead end at the intermediate table, statement order irrelevant, cyclic scripts report nothing. The implementation is compared with the executable spec_script_pairs (evaluated in Coq together with the theorem's guard) on generated core scripts (suite S3).",
   ref="DESIGN.md section 6 C04", note=TB + "Composition is proved for scripts inside c04_hyps (about 90% of the scripts the checks generate; counted per run) and checked (S1) on the "
        "implementation for all; unresolved columns resolved at script level and DROP/RENAME are outside the theorem; recorded classes K-C04-1/2/3.",
   tech="Coq proof (union of statement graphs, relational composition, paths, session) + full-pipeline model correspondence on chains"),
@@ -72,7 +72,7 @@ CLAIMED = {
   text="Theorems: unquoted identifiers case-insensitive, quoting a lower-case identifier changes nothing, separators/comments/extra semicolons do not change "
        "the statement list, every navigation combinator of the extractors commutes with erasing whitespace/comment/meta segments on well-formed trees, and (corollary of "
        "Lemma A) the whole extractor's table lineage on the core fragment does not depend on the trivia between tokens. "
-       "Metamorphic comparison on the implementation under 11 token-level rewrites per dialect; tie on the rewritten text.",
+       "Metamorphic comparison on the implementation under 11 token-level rewrites per dialect; tie on the rewritten text. Column level (c07_columns_layout_invariant_on_single_select, corollary of Lemma B): the end-to-end column pairs of INSERT/CTAS/VIEW over one SELECT from base tables do not depend on the trivia. Scripts in which ONE statement is rewritten (with metadata, verbatim repeats, re-created tables) are compared on the implementation.",
   ref="DESIGN.md section 6 C07", note=TB + "Invariance of the whole extractor at column level and outside the core fragment is checked (I(rewrite) = I(plain), I = M on rewritten trees), not proved; "
        "tree well-formedness assumptions of the theorems are monitored on every tree.",
   tech="Coq proof (string laws, splitter, strong induction on rose trees) + metamorphic rewrites"),
@@ -80,7 +80,7 @@ CLAIMED = {
   text="Theorem: the specification (tables and column flows) is invariant under admissible renaming of aliases, derived-table aliases and CTE names; the naive "
        "admissibility was refuted by the proof attempt and three necessary side conditions added; with Lemma A the tree model itself is invariant at table level "
        "on the core fragment (c08_tables_alpha_on_core). Metamorphic comparison on the implementation under six "
-       "adversarial renaming pools x AS keyword + scope-aware renaming to names of the enclosing query's tables, per dialect; I = S on the unrenamed statement.",
+       "adversarial renaming pools x AS keyword + scope-aware renaming to names of the enclosing query's tables, per dialect; I = S on the unrenamed statement. Column level on the single-SELECT fragment (c08_columns_alpha_on_single_select: Lemma B + alpha-equivalence of the specification's flows; guards on the original statement only).",
   ref="DESIGN.md section 6 C08", note=TB + "The theorem is about the specification; the implementation is tied to it by C01/C02-style comparison and by the metamorphic check.",
   tech="Coq proof (alpha-equivalence of the denotational spec) + metamorphic renamings"),
  "C09": dict(
@@ -96,13 +96,13 @@ CLAIMED = {
   tech="Coq proof (dispatch, silent skip) + error-kind correspondence + malformed-input stream"),
  "C11": dict(
   text="Theorems: sorted accessor outputs and path listings are invariant under permutation of the underlying collections; at dataset level the assembled result "
-       "depends only on the set of statements. The implementation runs in fresh interpreters under 4/32 hash seeds with shuffled repeated accessor calls.",
+       "depends only on the set of statements. The implementation runs in fresh interpreters under 4/32 hash seeds with shuffled repeated accessor calls. Full graph model (Holder/OrderFree.v, corollaries of the composition and refinement theorems): printed end-to-end column pairs are independent of statement order/repetition (c11_column_pairs_statement_order_free) and of the insertion order of nodes and edges inside the statement graphs (c11_column_pairs_insertion_order_free, c11_permuted_graphs_are_equivalent); role lists of the full model are order-free; the hypotheses are shown necessary (Python-equal column objects with different candidate parents; chained RENAME).",
   ref="DESIGN.md section 6 C11", note=TB + "Hash seeds are sampled; five order-dependence classes recorded (K-C11-1..5).",
   tech="Coq proof (Permutation-invariance) + multi-seed differential run"),
  "C12": dict(
   text="Theorems about MetaDataProvider/MetaDataSession and the statement loop for an arbitrary analysis function: session empty after every run incl. failures, "
        "reused provider answers as a fresh one, outcome independent of the history of runs. Histories with failure at every position, provider faults at every "
-       "lookup index, falsy/truthy/default providers, shuffled corpus history, 16-thread pool.",
+       "lookup index, falsy/truthy/default providers, shuffled corpus history, 16-thread pool. Concurrency clause (Provider/Interleave.v): a run is a small-step machine over its own provider (= eval when run to its end); at any point of any schedule every run is where it would be alone (c12_isolation_at_any_point), so every complete interleaving of any number of runs, each with its own provider, ends with the provider states and results of the sequential executions in any order (c12_every_interleaving_is_sequential, c12_interleaving_equals_any_sequential_order); with one shared provider this is refuted (c12_shared_provider_refuted).",
   ref="DESIGN.md section 6 C12", note=TB + "Thread non-interference exercised, not proved; sqlfluff/SQLAlchemy caches not modelled.",
   tech="Coq proof (state-machine invariant over run histories) + exhaustive failure-point histories"),
  "C13": dict(
@@ -118,7 +118,7 @@ CLAIMED = {
   text="Theorems: on the specification, analysing with default schema S equals analysing the explicitly qualified statement without a default "
        "(c14_spec_default_is_qualification, all statements); with Lemma A the same holds for the tree model on the core fragment "
        "(c14_default_is_qualification_on_core). The specification takes the default schema as a parameter; on the implementation, scoped override = environment variable (fresh process) = explicit "
-       "qualification = specification, for every generated statement incl. qualified names spelled as one quoted dotted identifier. Regression witness for fix F5.",
+       "qualification = specification, for every generated statement incl. qualified names spelled as one quoted dotted identifier. Regression witness for fix F5. Column level: on the specification for ALL statements the column flows of the explicitly qualified statement, under any default, are the flows under the default (c14_spec_flows_default_is_qualification, Ast/QualifyCols.v); on the tree model for the single-SELECT fragment of Lemma B the end-to-end pairs agree (c14_columns_default_is_qualification_on_single_select; guards on s only - they are preserved by qualification).",
   ref="DESIGN.md section 6 C14", note=TB + "Table level proved (spec: all statements; model: core fragment); the column level and the mechanisms (scoped override, environment, "
        "combination with other options) are checked on the implementation, not proved.",
   tech="Coq proof (qualification lemma on the spec, corollary of Lemma A on the model) + Coq model with call-time/import-time default + four-way metamorphic comparison"),
